@@ -92,6 +92,7 @@ var corpus = []variant{
 	{"C14-trunc-without-rewind", "C14", "C14.write-cursor-after-load", []edit{{"pkg/fs/file.go", "func (f *File) enterWriteMode()", "			// Loading the existing content left the cursor behind it; the emptied buffer starts at zero, also when appending\n			if _, err := f.writeBuf.Seek(0, io.SeekStart); err != nil {\n				return err\n			}\n", ""}}},
 	{"C13-update-revives-tombstone", "C13", "C13.create-resets-all-columns", []edit{{"pkg/persisters/metadata.go", "func (p *MetadataPersister) UpdateHeaderMetadata(", "boil.Blacklist(models.HeaderColumns.Deleted)", "boil.Infer()"}}},
 	{"C05-delete-record-not-pax", "C05", "C05.pax", []edit{{"pkg/operations/delete.go", "func (o *Operations) Delete(", "		hdr.Format = tar.FormatPAX // The STFS records below need PAX, whatever format the entry was archived in\n", ""}}},
+	{"C16-regular-file-falls-back", "C16", "C16.rebuild-error-not-destructive", []edit{{"pkg/fs/filesystem.go", "func (f *STFS) Initialize(", "			if inUse {\n				return \"\", err\n			}\n\n", "			_ = inUse\n\n"}}},
 	{"C12-like-filter-removed", "C12", "C12.like-safety", []edit{{"pkg/persisters/metadata.go", "func (p *MetadataPersister) GetHeaderChildren(", "		if !strings.HasPrefix(hdr.Name, childPrefix) {\n			continue\n		}\n\n", ""}}},
 	{"C12-ancestry-guard-removed", "C12", "C12.ancestry-guard", []edit{{"pkg/fs/filesystem.go", "", "	if strings.HasPrefix(\n\t\tstrings.TrimPrefix(newname, string(filepath.Separator)),\n\t\tstrings.TrimPrefix(strings.TrimSuffix(oldname, string(filepath.Separator)), string(filepath.Separator))+string(filepath.Separator),\n\t) {\n\t\treturn os.ErrInvalid\n\t}\n", "	_ = strings.TrimSuffix\n"}}},
 	{"C12-ancestry-guard-textual", "C12", "C12.ancestry-guard", []edit{{"pkg/fs/filesystem.go", "", "		strings.TrimPrefix(newname, string(filepath.Separator)),\n\t\tstrings.TrimPrefix(strings.TrimSuffix(oldname, string(filepath.Separator)), string(filepath.Separator))+string(filepath.Separator),\n", "		newname,\n\t\tstrings.TrimSuffix(oldname, string(filepath.Separator))+string(filepath.Separator),\n"}}},
